@@ -290,11 +290,10 @@ func c05Expiry(ev *vlib.Evidence, idx int) {
 	// replay comes after max(window, ahead)+1.3 s: later than any TTL that
 	// ignores part of that sum, earlier than the nonce going stale.
 	ahead := []time.Duration{1500 * time.Millisecond, 3 * time.Second, 5 * time.Second}[idx%3]
-	wait := window
-	if ahead > wait {
-		wait = ahead
+	wait := window + 300*time.Millisecond // a mark kept for just the window is gone by then
+	if ahead > window {
+		wait = ahead + 1300*time.Millisecond // also later than "ahead + 1 s of rounding"
 	}
-	wait += 1300 * time.Millisecond
 	id := fmt.Sprintf("expiry-%d", idx)
 	t0 := time.Now()
 	n := t0.Add(ahead).UnixNano()
